@@ -3,6 +3,7 @@ package main
 // Symbolic execution of go/ssa function bodies = VC generation.
 
 import (
+	"sort"
 	"fmt"
 	"os"
 	"go/constant"
@@ -160,6 +161,7 @@ type Exec struct {
 	tailrec     map[string]bool
 	nAtomic     int
 	sharedVals  []*Term
+	modifies    []*Term
 	jsonMarshals []jsonRec
 	valueSort   *Sort
 	recFuel     map[*ssa.Function]int
@@ -589,6 +591,15 @@ func (x *Exec) frameOblig(st *State, ref *Term, what, fn string) {
 	if x.frameOff || x.discovering > 0 || x.inInit {
 		return
 	}
+	for _, m := range x.modifies {
+		if m == ref {
+			// declared out-parameter (option modifies=…): the write is part of the contract
+			if len(st.writes) > 0 {
+				st.writes = st.writes[:len(st.writes)-1]
+			}
+			return
+		}
+	}
 	x.nFrame++
 	x.side = append(x.side, SideOblig{Name: fmt.Sprintf("frame:%s#%d", what, x.nFrame), PC: x.pcOf(st), Goal: x.c.Not(x.isOldRef(ref)), Note: "in " + fn})
 }
@@ -731,6 +742,85 @@ func (x *Exec) recSpecCall(st *State, fn *ssa.Function, args []*Term) []Outcome 
 	}
 	all = append(all, args...)
 	app := c.App("rec_"+shortName(fn.String()), rs, all...)
+	// Structural recursion over a closed interface (one with unexported methods, e.g. a trie node):
+	// a node whose dynamic type is known is unfolded transparently (no shared symbol, so nothing is
+	// conflated across heap states); an opaque node stays an uninterpreted symbol and is never unfolded.
+	structural := -1
+	for i := 0; i < sig.Params().Len(); i++ {
+		if isClosedIface(sig.Params().At(i).Type()) {
+			structural = i
+			break
+		}
+	}
+	if structural >= 0 {
+		a := c.expandSelect(args[structural])
+		if a.Op == "ite" {
+			ts, fs := x.fork(st.clone(), a.Args[0])
+			var vt, vf *Term
+			for k, br := range []*State{ts, fs} {
+				if br == nil {
+					continue
+				}
+				as := append([]*Term(nil), args...)
+				as[structural] = a.Args[1+k]
+				outs := x.recSpecCall(br, fn, as)
+				if len(outs) != 1 || outs[0].kind != ORet {
+					return outs
+				}
+				// facts learned on the branch hold under the branch condition
+				cond := a.Args[0]
+				if k == 1 {
+					cond = c.Not(cond)
+				}
+				for _, f := range outs[0].st.facts[len(st.facts):] {
+					x.assumeFact(st, c.Implies(cond, f))
+				}
+				if k == 0 {
+					vt = outs[0].val
+				} else {
+					vf = outs[0].val
+				}
+			}
+			switch {
+			case vt == nil:
+				return []Outcome{{st: st, kind: ORet, val: vf}}
+			case vf == nil:
+				return []Outcome{{st: st, kind: ORet, val: vt}}
+			}
+			return []Outcome{{st: st, kind: ORet, val: c.Ite(a.Args[0], vt, vf)}}
+		}
+		if a.Op != "box" && a != c.NilIface() {
+			x.noteTrusted("recursive specification functions over opaque nodes: their value is assumed unaffected by the writes of the function under contract (every write is proved to go to fresh memory by the frame obligations)")
+			return []Outcome{{st: st, kind: ORet, val: app}}
+		}
+		if x.recFuel[originOf(fn)] >= x.maxFuel+2 {
+			return []Outcome{{st: st, kind: ORet, val: app}}
+		}
+		if x.recFuel == nil {
+			x.recFuel = map[*ssa.Function]int{}
+		}
+		x.recFuel[originOf(fn)]++
+		fr := &Frame{fn: fn, env: map[ssa.Value]*Term{}, visits: map[*ssa.BasicBlock]int{}}
+		for i, p := range fn.Params {
+			v := args[i]
+			if i == structural {
+				v = a
+			}
+			fr.env[p] = x.coerce(v, p.Type())
+		}
+		s2 := st.clone()
+		s2.trace = nil
+		x.stack = append(x.stack, callRec{fn, args})
+		outs := x.runFrom(fr, s2, fn.Blocks[0], 0)
+		x.stack = x.stack[:len(x.stack)-1]
+		x.recFuel[originOf(fn)]--
+		v, _, facts := x.mergeOuts(st, outs, rs)
+		if v == nil {
+			return abortOut(st, "recursive spec function %s: body outside the supported subset", fn)
+		}
+		x.assumeFact(st, facts)
+		return []Outcome{{st: st, kind: ORet, val: v}}
+	}
 	if x.recFuel[originOf(fn)] >= x.maxFuel {
 		return []Outcome{{st: st, kind: ORet, val: app}}
 	}
@@ -756,6 +846,21 @@ func (x *Exec) recSpecCall(st *State, fn *ssa.Function, args []*Term) []Outcome 
 		x.assumeFact(st, c.Implies(def, c.Eq(app, v)))
 	}
 	return []Outcome{{st: st, kind: ORet, val: app}}
+}
+
+// isClosedIface: an interface type with at least one unexported method (only
+// this package can implement it).
+func isClosedIface(t types.Type) bool {
+	it, ok := types.Unalias(t).Underlying().(*types.Interface)
+	if !ok {
+		return false
+	}
+	for i := 0; i < it.NumMethods(); i++ {
+		if !it.Method(i).Exported() {
+			return true
+		}
+	}
+	return false
 }
 
 // foreignLocalInv: the loop's invariant is marked local to its function's own
@@ -795,13 +900,103 @@ func (x *Exec) summaryFor(fn *ssa.Function) *FuncSummary {
 	name := o.Name()
 	pkgName := o.Pkg.Pkg.Name()
 	if !x.assumeFns[name] && !x.assumeFns[pkgName+"."+name] {
-		return nil
+		// assumerec: only for recursive calls (the function is already being executed)
+		if !x.assumeFns["rec:"+name] {
+			return nil
+		}
+		onStack := false
+		for _, r := range x.stack {
+			if originOf(r.fn) == o {
+				onStack = true
+			}
+		}
+		if !onStack {
+			return nil
+		}
 	}
 	key := o.Pkg.Pkg.Path() + "." + name
 	if recv := o.Signature.Recv(); recv != nil {
 		key = o.Pkg.Pkg.Path() + "." + recvNamed(recv.Type()) + "." + name
 	}
 	return x.prog.Summaries[key]
+}
+
+// ifaceSummary: contract of an interface method (iface item), used when the implementation is unknown.
+func (x *Exec) ifaceSummary(recvType types.Type, m *types.Func) *FuncSummary {
+	n, ok := types.Unalias(recvType).(*types.Named)
+	if !ok || n.Obj().Pkg() == nil {
+		return nil
+	}
+	return x.prog.Summaries["iface:"+n.Obj().Pkg().Path()+"."+n.Obj().Name()+"."+m.Name()]
+}
+
+func (x *Exec) ifaceSummaryCall(st *State, recv *Term, recvType types.Type, m *types.Func, args []*Term, fs *FuncSummary) []Outcome {
+	c := x.c
+	n := types.Unalias(recvType).(*types.Named)
+	var targs []types.Type
+	for i := 0; i < n.TypeArgs().Len(); i++ {
+		targs = append(targs, n.TypeArgs().At(i))
+	}
+	sig := m.Type().(*types.Signature)
+	if ms := x.prog.SSA.MethodSets.MethodSet(recvType); ms != nil {
+		if sel := ms.Lookup(m.Pkg(), m.Name()); sel != nil {
+			sig = sel.Type().(*types.Signature)
+		}
+	}
+	if sig.Results().Len() != 1 {
+		return abortOut(st, "interface contract of %s: only single-result methods", m.Name())
+	}
+	all := append([]*Term{recv}, args...)
+	evalPred := func(s *State, p *ssa.Function, as []*Term) *Term {
+		s2 := s.clone()
+		s2.trace = nil
+		outs := x.callFunc(s2, p, as, nil)
+		v, def, facts := x.mergeOuts(s, outs, c.Bool)
+		if v == nil {
+			return nil
+		}
+		x.assumeFact(s, facts)
+		return c.And(def, v)
+	}
+	req := pickInstance(fs.Req, targs)
+	if req == nil {
+		return abortOut(st, "no contract instance of interface method %s for %v", m.Name(), targs)
+	}
+	g := evalPred(st, req, all)
+	if g == nil {
+		return abortOut(st, "interface contract of %s: requires outside subset", m.Name())
+	}
+	x.nFrame++
+	x.side = append(x.side, SideOblig{Name: fmt.Sprintf("precondition of %s.%s#%d", n.Obj().Name(), m.Name(), x.nFrame), PC: x.pcOf(st), Goal: g})
+	// the callee may write through pointer arguments that point to plain local variables (out-parameters)
+	savedEntry := x.entryState
+	x.entryState = st.clone()
+	for _, a := range args {
+		if a.Op == "cell" {
+			if old, ok := st.cells[a.Idx]; ok && (old.Sort.Kind == KBool || old.Sort.Kind == KInt) {
+				st.cells[a.Idx] = c.Fresh("out", old.Sort)
+			}
+		}
+	}
+	rs := c.SortOf(sig.Results().At(0).Type())
+	res := c.Fresh("r_"+m.Name(), rs)
+	x.assumeFact(st, c.Invariant(sig.Results().At(0).Type(), res))
+	for _, cands := range fs.Preds {
+		p := pickInstance(cands, targs)
+		if p == nil {
+			x.entryState = savedEntry
+			return abortOut(st, "no contract instance of interface method %s", m.Name())
+		}
+		v := evalPred(st, p, append(append([]*Term(nil), all...), res))
+		if v == nil {
+			x.entryState = savedEntry
+			return abortOut(st, "interface contract of %s: ensures outside subset", m.Name())
+		}
+		x.assumeFact(st, v)
+	}
+	x.entryState = savedEntry
+	x.noteSummary(n.Obj().Name() + "." + m.Name() + " (interface contract)")
+	return []Outcome{{st: st, kind: ORet, val: res}}
 }
 
 func recvNamed(t types.Type) string {
@@ -875,7 +1070,20 @@ func (x *Exec) summaryCall(st *State, fn *ssa.Function, args []*Term, fs *FuncSu
 	} else {
 		return abortOut(st, "no contract instance of %s for type arguments %v (add an `inst` line)", originOf(fn), targs)
 	}
-	res := c.App("sum_"+shortName(fn.String()), rs, args...)
+	// the result is a function of the arguments and of the memory reachable from them
+	// (heaps of the sorts reachable through pointers/slices of the parameter types; contents of local cells passed by address)
+	fargs := append([]*Term(nil), args...)
+	var ptypes []types.Type
+	for i := 0; i < len(fn.Params); i++ {
+		ptypes = append(ptypes, fn.Params[i].Type())
+	}
+	fargs = append(fargs, x.footprint(st, ptypes)...)
+	fargs = append(fargs, x.reachCells(st, args)...)
+	sym := "sum_" + shortName(fn.String())
+	for _, a := range fargs[len(args):] {
+		sym += "_" + shortName(a.Sort.Name)
+	}
+	res := c.App(sym, rs, fargs...)
 	x.assumeFact(st, x.resultInv(sig.Results().At(0).Type(), res))
 	if rs == c.Iface {
 		x.assumeFact(st, c.Not(c.Eq(res, c.NilIface())))
@@ -893,6 +1101,98 @@ func (x *Exec) summaryCall(st *State, fn *ssa.Function, args []*Term, fs *FuncSu
 	}
 	x.noteSummary(originOf(fn).String())
 	return []Outcome{{st: st, kind: ORet, val: res}}
+}
+
+// footprint returns the current heap terms of every sort reachable from values of
+// the given types through pointers, slices and maps (interfaces and functions are
+// opaque: assumption A1).  Sorted by name for determinism.
+func (x *Exec) footprint(st *State, ts []types.Type) []*Term {
+	c := x.c
+	seen := map[string]bool{}
+	var names []string
+	terms := map[string]*Term{}
+	var walk func(t types.Type, depth int)
+	walk = func(t types.Type, depth int) {
+		if depth > 12 {
+			return
+		}
+		switch u := types.Unalias(t).Underlying().(type) {
+		case *types.Pointer:
+			es := c.SortOf(u.Elem())
+			k := "h:" + es.Name
+			if !seen[k] {
+				seen[k] = true
+				names = append(names, k)
+				terms[k] = x.heapOf(st, es)
+				walk(u.Elem(), depth+1)
+			}
+		case *types.Slice:
+			es := c.SortOf(u.Elem())
+			k := "a:" + es.Name
+			if !seen[k] {
+				seen[k] = true
+				names = append(names, k)
+				terms[k] = x.arrsOf(st, es)
+				walk(u.Elem(), depth+1)
+			}
+		case *types.Array:
+			walk(u.Elem(), depth+1)
+		case *types.Struct:
+			for i := 0; i < u.NumFields(); i++ {
+				walk(u.Field(i).Type(), depth+1)
+			}
+		case *types.Map:
+			k := "m:" + c.SortOf(u.Key()).Name + "|" + c.SortOf(u.Elem()).Name
+			if !seen[k] {
+				seen[k] = true
+				if mt, ok := st.maps[c.SortOf(u.Key()).Name+"|"+c.SortOf(u.Elem()).Name]; ok {
+					names = append(names, k)
+					terms[k] = mt
+				}
+			}
+		}
+	}
+	for _, t := range ts {
+		walk(t, 0)
+	}
+	sort.Strings(names)
+	var out []*Term
+	for _, k := range names {
+		out = append(out, terms[k])
+	}
+	return out
+}
+
+// reachCells: current contents of the local cells (fresh objects, fresh arrays,
+// address-taken locals) reachable from the given terms, in order of discovery.
+func (x *Exec) reachCells(st *State, roots []*Term) []*Term {
+	seenT := map[*Term]bool{}
+	seenC := map[int]bool{}
+	var out []*Term
+	var walk func(t *Term)
+	walk = func(t *Term) {
+		if t == nil || seenT[t] {
+			return
+		}
+		seenT[t] = true
+		if t.Op == "cell" {
+			if !seenC[t.Idx] {
+				seenC[t.Idx] = true
+				if v, ok := st.cells[t.Idx]; ok {
+					out = append(out, v)
+					walk(v)
+				}
+			}
+			return
+		}
+		for _, a := range t.Args {
+			walk(a)
+		}
+	}
+	for _, r := range roots {
+		walk(r)
+	}
+	return out
 }
 
 func (x *Exec) noteSummary(s string) {
@@ -1034,9 +1334,11 @@ func (x *Exec) runFrom(fr *Frame, st *State, b *ssa.BasicBlock, i int) []Outcome
 							return res
 						}
 						fr.env[ins] = x.load(ok, addr, s)
+						x.loadedInv(ok, addr, ins.Type(), fr.env[ins])
 						return append(res, x.runFrom(fr, ok, b, i+1)...)
 					}
 					fr.env[ins] = x.load(st, addr, s)
+					x.loadedInv(st, addr, ins.Type(), fr.env[ins])
 					continue
 				}
 				v, err := x.unop(ins, x.val(fr, ins.X))
@@ -1532,6 +1834,46 @@ func (x *Exec) applyFn(st *State, f *Term, args []*Term, record bool) []Outcome 
 	return append(res, Outcome{st: st, kind: ORet, val: r})
 }
 
+// loadedInv: a slice (or a struct holding slices) read from memory that is not a
+// local variable satisfies the slice invariant 0 <= len <= cap (A2 for heap contents).
+func (x *Exec) loadedInv(st *State, addr *Term, t types.Type, v *Term) {
+	root := addr
+	for root.Op == "faddr" || root.Op == "iaddr" {
+		root = root.Args[0]
+	}
+	if root.Op == "cell" || root.Op == "vcell" || root.Op == "global" {
+		return
+	}
+	hasSlice := false
+	var walk func(t types.Type, d int)
+	walk = func(t types.Type, d int) {
+		if d > 3 {
+			return
+		}
+		switch u := types.Unalias(t).Underlying().(type) {
+		case *types.Slice:
+			hasSlice = true
+		case *types.Struct:
+			for i := 0; i < u.NumFields(); i++ {
+				walk(u.Field(i).Type(), d+1)
+			}
+		case *types.Array:
+			walk(u.Elem(), d+1)
+		}
+	}
+	walk(t, 0)
+	if hasSlice {
+		inv := x.c.Invariant(t, v)
+		if !inv.hasBound {
+			// closed: holds on every path (memory only ever holds well-formed slices)
+			x.c.AddAxiom(inv)
+			x.learn(st, inv, true)
+			return
+		}
+		x.assumeFact(st, inv)
+	}
+}
+
 // resultInv: invariant assumed for values produced by unknown code
 // (callbacks, interface methods): type invariant + returned functions non-nil.
 func (x *Exec) resultInv(t types.Type, v *Term) *Term {
@@ -1572,6 +1914,9 @@ func (x *Exec) invoke(st *State, recv *Term, m *types.Func, args []*Term, recvTy
 		}
 		return res
 	}
+	if e := c.expandSelect(recv); e != recv {
+		return x.invoke(st, e, m, args, recvType)
+	}
 	var res []Outcome
 	if recv == c.NilIface() {
 		return x.rtPanic(st, "method call on nil interface")
@@ -1585,6 +1930,9 @@ func (x *Exec) invoke(st *State, recv *Term, m *types.Func, args []*Term, recvTy
 			return res
 		}
 		st = ok
+	}
+	if fs := x.ifaceSummary(recvType, m); fs != nil {
+		return append(res, x.ifaceSummaryCall(st, recv, recvType, m, args, fs)...)
 	}
 	sig := m.Type().(*types.Signature)
 	// instantiate the signature for generic interfaces through the receiver's method set
